@@ -109,6 +109,9 @@ class ShellScriptBinaryIOHelper(BinaryIO):
             return None
         try:
             decoded = base64.b64decode(data, validate=True)
+            # `base64 -w0` reproduces only the canonical encoding of `decoded`.
+            if base64.b64encode(decoded) != data:
+                return None
             escaped = ShellScriptBinaryIOHelper._escape_bytes(decoded)
             # Avoid too many special characters in the decoded string.
             if len(escaped) > len(decoded) * 1.05:
